@@ -462,6 +462,14 @@ pub fn run(thorough: bool) -> Report {
         }
     }
 
+    // (4) a call always hands control back, however long the line: statements chained through
+    // THEN and ELSE clauses, at every depth of the grid, each in a child process of its own (a call
+    // that exhausts the native stack never returns)
+    let (ladder_children, pv) = crate::c01::recursion_probes_for("interpreter", &["if_then", "if_else", "if_then_else_mix"]);
+    for v in pv {
+        rep.add(v);
+    }
+
     let acc = total.into_inner().unwrap();
     let mut seen = HashSet::new();
     rep.violating_cases += acc.violating;
@@ -483,6 +491,7 @@ pub fn run(thorough: bool) -> Report {
         "handback_boundaries": handback,
         "immediate_line_calls_instrumented": immediate_calls,
         "break_then_cont_boundaries": cont_calls,
+        "clause_ladder_children": ladder_children,
         "max_statement_entries_in_one_call": acc.max_entries,
         "max_work_ratio": acc.max_ratio,
         "work_bound_k": WORK_K,
